@@ -65,8 +65,9 @@ impl Spec {
                 Level::Array => {
                     // 0: break after every bracket; 1: break only after every value; 2: a comment
                     // after every value; 3: blank + break on both sides
-                    s.push_str(["[ # c\n", "[", "[", "[ \n "][style % 4]);
-                    close.insert_str(0, ["\n]", "\n]", " # c\n]", " \n ]"][style % 4]);
+                    // 4: one line, a trailing comma after every value
+                    s.push_str(["[ # c\n", "[", "[", "[ \n ", "["][style % 5]);
+                    close.insert_str(0, ["\n]", "\n]", " # c\n]", " \n ]", ",]"][style % 5]);
                 }
                 Level::Inline { key } => {
                     s.push('{');
@@ -267,7 +268,12 @@ fn judge(spec: &Spec, profile: &str, o: &Outcome) -> Result<(), Failure> {
         Outcome::Reject { recursion, msg } => {
             // (the limit may surface under another message, e.g. "invalid inline table" when the
             // over-long dotted key sits inside an inline table; the rejection is what matters)
-            let _ = recursion;
+            let plain = spec.key == 1 && spec.header <= 79 && spec.levels.iter().all(|l| matches!(l, Level::Array | Level::Inline { key: 1 }));
+            if plain && !*recursion {
+                // no dotted key anywhere and the header path below the limit: the only reason to refuse this
+                // document is the nesting of its arrays / inline tables, and the error has to say so
+                return Err(Failure::new("limit-message", format!("[{profile}] nesting of {} arrays / inline tables is refused, but not with a recursion-limit error: {msg}\n{head}…", spec.levels.len()), case()));
+            }
             if spec.total() <= 40 {
                 return Err(Failure::new("below-limit", format!("[{profile}] total nesting {} is rejected: {msg}\n{head}…", spec.total()), case()));
             }
@@ -382,7 +388,7 @@ pub fn run(args: Args) -> ! {
                 specs.push(Spec { header: 10, aot: d % 2 == 0, key: 3, levels: vec![Level::Array; d] });
             }
         }
-        let specs: Vec<Spec> = specs.into_iter().flat_map(|s| vec![s; 4]).collect();
+        let specs: Vec<Spec> = specs.into_iter().flat_map(|s| vec![s; 5]).collect();
         let texts: Vec<String> = specs.iter().enumerate().map(|(i, s)| s.text_multiline(i)).collect();
         let flat: Vec<String> = specs.iter().map(|s| s.text()).collect();
         let w = workers();
